@@ -112,6 +112,64 @@ def check(P, R):
          'holds a hook but no route): the hook index forgets it, the tree keeps firing it',
          why='removed hooks are gone')
 
+    # nothing in the tree is touched unless the pattern led to a node: with a mismatch (and no prefix removal) remove() changes nothing; a prefix
+    # removal on a PARTIAL mismatch happens only when the node's key continues the pattern
+    mm_names = {d.name for n in g.nodes for d in rd.gen.get(n, []) if d.kind in ('unpack', 'assign') and d.value is not None
+                and any(isinstance(x, ast.Call) and dotted(x.func) == 'self._match' for x in ast.walk(d.value)) and 'mismatch' in d.name}
+    wild_names = {d.name for n in g.nodes for d in rd.gen.get(n, []) if d.kind == 'assign' and d.value is not None
+                  and any(isinstance(x, ast.Call) and call_attr(x) == 'endswith' for x in ast.walk(d.value))} | {'is_wildcard'}
+    muts_rm = [n for n in g.nodes if n.kind == 'stmt' and ((isinstance(n.ast, ast.Assign) and any(c01.slot_name(t) in ('HOOKS', 'DATA', 'IDX') for t in n.ast.targets))
+                                                          or (isinstance(n.ast, ast.Delete) and 'OFFSET' in src(n.ast)))]
+    if mm_names and muts_rm:
+        mmn = sorted(mm_names)[0]
+
+        def atom_nomatch(e):
+            # assumption: the pattern did not lead to a node, and this is not a prefix (wildcard) removal
+            if isinstance(e, ast.Name) and e.id == mmn:
+                return True
+            if isinstance(e, ast.Name) and e.id in wild_names:
+                return False
+            return None
+
+        def atom_partial_elsewhere(e):
+            # assumption: prefix removal, the pattern ends inside a node's key, and that key does NOT continue the pattern
+            if isinstance(e, ast.Name) and e.id == mmn:
+                return True
+            if isinstance(e, ast.Name) and e.id in wild_names:
+                return True
+            cp_ = compare_parts(e)
+            if cp_ and isinstance(cp_[0], ast.Name) and cp_[0].id == mmn and 'PARTIAL' in src(cp_[2]):
+                return cp_[1] is ast.Eq
+            if isinstance(e, ast.Call) and call_attr(e) == 'startswith':
+                return False
+            return None
+        for n_ in muts_rm:
+            r1 = T.reachable_assuming(rm, n_, atom_nomatch)
+            R.ob('C11.b', rm, n_.ast, not r1, text=f'`{short(n_.ast)}` only when the pattern led to a node', detail='' if not r1 else
+                 f'`{short(n_.ast)}` is executed although the pattern matched no node (mismatch) : the node where matching stopped - an ancestor or a sibling - '
+                 f'loses its hook / route (removing a hook twice wipes the hook of the parent prefix)',
+                 why='survivors stay intact', key_extra='no-match:' + short(n_.ast, 40))
+            if isinstance(n_.ast, ast.Delete) or any(c01.slot_name(t) == 'IDX' for t in getattr(n_.ast, 'targets', [])):
+                r2 = T.reachable_assuming(rm, n_, atom_partial_elsewhere)
+                R.ob('C11.b', rm, n_.ast, not r2, text=f'`{short(n_.ast)}` (prefix removal) not when the node key does not continue the pattern', detail='' if not r2 else
+                     f'the whole subtree is deleted on a PARTIAL mismatch without checking that the node\'s key starts with the rest of the prefix: '
+                     f'remove(\'/api/usage*\') wipes /api/users, /api/user-groups, /api/user/:id',
+                     why='survivors stay intact', key_extra='partial:' + short(n_.ast, 40))
+    # _match: a rule's filter list is compared with the node's filter at every wildcard position
+    mt_ = P.func(f'{RD}:RadiDict._match')
+    for tn in mt_.cfg.nodes:
+        if tn.kind != 'test':
+            continue
+        ops_ = bool_operands(tn.ast, ast.And)
+        cmp_ = [x for x in ops_ if compare_parts(x) and compare_parts(x)[1] is ast.NotEq and c01.slot_name(compare_parts(x)[0]) == 'FILTER']
+        if not cmp_:
+            continue
+        extra_ = [x for x in ops_ if x not in cmp_ and not isinstance(x, ast.Name)]
+        R.ob('C11.e', mt_, tn.ast, not extra_, text='filter mismatch decided by `node[FILTER] != rule filter` whenever filters are given', detail='' if not extra_ else
+             f'the comparison is additionally conditioned on `{short(extra_[0])}`: a rule without a filter at that position is accepted on a node that has one '
+             f'and silently shares its filter - after the filtered route is removed the survivor still matches only what the old filter accepted',
+             why='the edited router equals a freshly built one', key_extra='filter-compare')
+
     # ---- c: no raise after mutation in _add
     ad = P.func(f'{RR}:RadiRouter._add')
     ag = ad.cfg
